@@ -498,3 +498,14 @@ def rep_compare(trace, metadir, timeout=900):
     if not m:
         raise core.ToolError("Trace_Rep produced no result for %s (rc=%d): %s" % (trace, rc, out[-2000:]))
     return json.loads(m.group(1).encode().decode("unicode_escape"))
+
+
+def validate_st(trace, metadir, timeout=600):
+    """Conformance of SyncTest.tla: a detail-2 trace of one real SyncTestSession through Trace_ST."""
+    import re
+    rc, out = core.tlc(os.path.join(core.SPEC, "Trace_ST.tla"), os.path.join(core.SPEC, "Trace_ST.cfg"),
+                       metadir, env={"TRACE": trace}, timeout=timeout, xmx="3g")
+    m = re.search(r'<<"ST-RESULT", "(.*)">>', out)
+    if not m or "ST-INCOMPLETE" in out:
+        raise core.ToolError("Trace_ST produced no result for %s (rc=%d):\n%s" % (trace, rc, out[-2000:]))
+    return json.loads(m.group(1).encode().decode("unicode_escape"))
